@@ -11,7 +11,7 @@ package kfmt
 // this file only produces runs (stride 0): a lossless run-length encoding.
 //
 //   {"k":"pwcase","prefix":segs,"failAt":n,"period":n,"sticky":bool}
-//   {"k":"w","p":segs,"res":"ok|panic","n":ret,"err":"nil|sink|other","got":segs,"pmod":bool}
+//   {"k":"w","p":segs,"res":"ok|panic","n":ret,"err":"nil|sink|other","got":segs,"serr":sink errors in the call,"pmod":bool}
 //   {"k":"pcase","rt":segs}
 //   {"k":"panic","kind":..,"mod":segs,"msg":segs,"hmode":"ret|unwind","res":"returned|unwound|panicked",
 //    "out":segs,"halts":n,"before":n}
@@ -80,14 +80,17 @@ type xkfSink struct {
 	acc, failAt, period int
 	sticky, dead        bool
 	got                 []byte
+	errs                int // calls answered with an error
 }
 
 func (s *xkfSink) Write(b []byte) (int, error) {
 	if s.dead {
+		s.errs++
 		return 0, xkfSinkErr
 	}
 	if s.failAt >= 0 && s.acc+len(b) > s.failAt {
 		n := s.failAt - s.acc
+		s.errs++
 		s.got = append(s.got, b[:n]...)
 		s.acc = s.failAt
 		switch {
@@ -122,7 +125,7 @@ func xkfRunPW(enc *json.Encoder, c *xkfPWCase) {
 	for _, ch := range c.Chunks {
 		p := xkfBytes(ch)
 		pCopy := append([]byte(nil), p...)
-		sink.got = sink.got[:0]
+		sink.got, sink.errs = sink.got[:0], 0
 		e := xkfEv{"k": "w", "p": xkfSegs(p), "res": "ok", "n": 0, "err": "nil", "pmod": false}
 		func() {
 			defer func() {
@@ -140,7 +143,7 @@ func xkfRunPW(enc *json.Encoder, c *xkfPWCase) {
 				e["err"] = "other"
 			}
 		}()
-		e["got"] = xkfSegs(sink.got)
+		e["got"], e["serr"] = xkfSegs(sink.got), sink.errs
 		e["pmod"] = string(p) != string(pCopy) || string(w.Prefix) != string(prefixCopy)
 		enc.Encode(e)
 	}
